@@ -9,6 +9,9 @@ import (
 // vMultiChunk writes schema + two channels (topics "a","b") + n messages whose log times are all symbolic,
 // with a chunk size that closes a chunk after every per-th message. Sequence numbers are concrete tags.
 // Returns the writer (for ChunkIndexes), the file and the messages written.
+// vMultiChunkGrow: message payloads (and with them chunk sizes) grow along the file instead of being equal.
+var vMultiChunkGrow bool
+
 func vMultiChunk(n, per int, cfg, skip int) (*Writer, []byte, []*Message) {
 	opts := vOptions(cfg|1, skip, int64(32*per-1))
 	sink := &vSink{failAt: -1}
@@ -20,7 +23,11 @@ func vMultiChunk(n, per int, cfg, skip int) (*Writer, []byte, []*Message) {
 	vAssert(w.WriteChannel(&Channel{ID: 2, SchemaID: 0, Topic: "b"}) == nil, "channel b")
 	var msgs []*Message
 	for i := 0; i < n; i++ {
-		m := &Message{ChannelID: uint16(1 + i%2), Sequence: uint32(i), LogTime: vSymU64(vN("t", i)), PublishTime: uint64(i), Data: vSymBytes(vN("d", i), 1, 1)}
+		dn := 1
+		if vMultiChunkGrow {
+			dn = 1 + 8*i // chunk sizes grow along the file (one message per chunk when per == 1)
+		}
+		m := &Message{ChannelID: uint16(1 + i%2), Sequence: uint32(i), LogTime: vSymU64(vN("t", i)), PublishTime: uint64(i), Data: vSymBytes(vN("d", i), dn, dn)}
 		if vKnown("C04-K1") {
 			vAssume(m.LogTime != ^uint64(0))
 		}
